@@ -96,6 +96,25 @@ def run_tlc(workdir, module, cfg_text, workers=4, timeout=1800, extra=(), java_o
     return p.returncode, out
 
 
+def run_apalache(workdir, module_file, init, inv, length, timeout=600):
+    """Apalache: is `inv` preserved from `init` within `length` steps? -> (True | False, output).
+    Anything else than OK / a reported violation is a tool failure."""
+    os.makedirs(workdir, exist_ok=True)
+    cmd = ["apalache-mc", "check", "--init=" + init, "--inv=" + inv, "--length=%d" % length,
+           "--out-dir=" + os.path.join(workdir, "_apalache-out"), "--run-dir=" + os.path.join(workdir, "_run"), module_file]
+    try:
+        p = subprocess.run(cmd, cwd=workdir, stdout=subprocess.PIPE, stderr=subprocess.STDOUT, timeout=timeout,
+                           env=dict(os.environ, JAVA_TOOL_OPTIONS=""))
+    except (subprocess.TimeoutExpired, FileNotFoundError) as e:
+        raise ToolFailure("apalache-mc did not complete on %s: %s" % (module_file, e))
+    out = p.stdout.decode("utf-8", "replace")
+    if "EXITCODE: OK" in out:
+        return True, out
+    if "EXITCODE: ERROR (12)" in out:
+        return False, out
+    raise ToolFailure("apalache-mc failed on %s:\n%s" % (module_file, out[-2000:]))
+
+
 def tlc_ok(rc, out, what):
     """Model checking finished without error?"""
     if "Model checking completed. No error has been found." in out or "Finished in" in out and rc == 0:
